@@ -21,13 +21,26 @@ Fixpoint first_diff (i : Z) (a b : list obs) : Z :=
   | _, _ => i
   end.
 
+(* Above this capacity the mirror model is not evaluated (its memory is a chain of closures over lists:
+   reading n bytes written in one piece costs O(n^2)); the verdict is the property checker's alone, which is
+   linear.  Sound for violations: by ring_refines_fifo every output of the model passes the checker, so a
+   rejected implementation output differs from the model's and breaks the property; what is lost for these
+   few large cases is only the detection of property-preserving deviations from the model (code 2). *)
+Definition model_cap_limit : Z := 16384.
+
 (* (code, index of first diverging op) *)
 Definition verdict (c : case) : Z * Z :=
+  if c_cap c >? model_cap_limit
+  then (if C18_check (c_hist c) then 0 else 1, -1)
+  else
   let ops := map fst (c_hist c) in
   let impl := map snd (c_hist c) in
   let model := snd (run (create (c_cap c)) ops) in
   let d := first_diff 0 impl model in
   (verdict_code (d =? -1) (C18_check (c_hist c)), d).
+
+(* compact rendering of long byte strings: a, a+1, ... modulo 251 *)
+Definition pat (a n : Z) : list Z := map (fun i => (a + i) mod 251) (zrange 0 n).
 
 (* compact constructors for generated files *)
 Definition W d n r w := (Write d, {| o_ret := RWritten n; o_readable := r; o_writeable := w |}).
